@@ -119,7 +119,7 @@ func (w *World) tr(line, want string) {
 }
 
 // traceDump asks the model for its backend tree and expects the real one.
-func (w *World) traceDump() { w.tr("srv dump", w.fs.Dump(true)) }
+func (w *World) traceDump() { w.tr("srv dump", w.fs.DumpHex()) }
 
 // callRaw sends one call at the current virtual time and records it for the model.
 func (w *World) callRaw(prog, vers, proc uint32, cred Cred, args []byte) Reply {
